@@ -1,8 +1,23 @@
-"""C18 bounded stand-in / replay: run the real constructors with sentinel objects.  bounded -- not proved."""
+"""C18 bounded stand-in / replay.  bounded -- not proved.
+  * constructors run with sentinel objects: get_params / set_params identity, deprecated aliases (check_param, run)
+  * unfitted-use-raises-NotFittedError: every query method of a never-fitted estimator, called with otherwise valid
+    arguments (formed, and indices + preprocessor), raises sklearn.exceptions.NotFittedError
+  * pickle-roundtrip: a fitted estimator and pickle.loads(pickle.dumps(est)) give bit-identical outputs of every query
+    method on a query batch, and equal get_params()
+  * clone-equivalent: clone(est) of an unfitted estimator with array / callable parameters has equal get_params() and,
+    fitted with an integer random_state on the same data, the same model
+  * clone-after-pickle: the sequences clone(pickle round-trip(est)) and pickle round-trip(clone(est)) work and keep the
+    parameters (the property quantifies over set_params/clone/pickle sequences)
+Configurations outside the quantifier or blocked by other findings are not generated: RCA n_components<d (F6),
+SCML basis=<array> (F7), LFDA n_components<d (F11: not repeatable), partially labelled y (F3)."""
+import contextlib
 import inspect
+import pickle
 import warnings
 
-from .common import repo, PUBLIC, Sentinel
+import numpy as np
+
+from .common import repo, PUBLIC, Sentinel, KIND
 
 ALIASES = {'num_constraints': 'n_constraints', 'convergence_threshold': 'tol', 'num_chunks': 'n_chunks'}
 
@@ -41,6 +56,17 @@ def replay_clause(cid, fail, seed):
     bad = check_param(ml, cls_name, p)
     if bad:
       return dict(failing_input=bad['call'], observed=bad['observed'])
+  low = clause.lower()
+  group = ('unfitted' if ('fitted' in low or 'guard' in low) else 'pickle' if 'pickle' in low else
+           'clone' if 'clone' in low else None)
+  if group:
+    for pick in ((lambda d, t: group in t and cls_name in t and any('.%s[' % x in cid for x in t)),
+                 (lambda d, t: group in t and cls_name in t), (lambda d, t: group in t)):
+      for desc, tags, thunk in cases('quick', seed):
+        if pick(desc, tags):
+          bad = thunk()
+          if bad:
+            return dict(failing_input=bad['input'], observed=bad['observed'])
   return dict(note='no concrete failing input derived for ' + clause)
 
 
@@ -73,8 +99,25 @@ def run(tier, seed):
       if bad:
         vio.append(dict(clause='%s:%s.__init__[%s]/ensures.roundtrip.%s' % (owner_module(cls, ml), owner_name(cls), cls_name, p),
                         input=bad['call'], observed=bad['observed'], signature=''))
-  return dict(cases=cases, distinct_nontrivial=cases, rule='one sentinel object per (estimator, constructor parameter); get_params / set_params identity',
-              bound='17 estimators x every constructor parameter x 1 sentinel', standin_samples=samples, violations=vio)
+  n_ctor = cases
+  seen = set()
+  for desc, tags, thunk in globals()['cases'](tier, seed):
+    cases += 1
+    seen.add(desc)
+    if cases % 53 == 0 and len(samples) < 9:
+      samples.append(desc)
+    bad = thunk()
+    if bad:
+      vio.append(dict(clause='runtime/C18/%s' % bad['tag'], input=bad['input'], observed=bad['observed'], signature=bad['signature']))
+  return dict(cases=cases, distinct_nontrivial=n_ctor + len(seen),
+              rule='one sentinel object per (estimator, constructor parameter): get_params / set_params identity; every query method '
+                   'of a never-fitted estimator (formed arguments, and indices + array preprocessor) must raise NotFittedError; every '
+                   'estimator fitted on a small dataset (formed, and indices + preprocessor) vs its pickle round trip: all query '
+                   'outputs bit-identical, get_params equal; unfitted estimators with array/callable parameters vs clone(): equal '
+                   'get_params, same model after fit with integer random_state; clone/pickle sequences; distinct = distinct descriptions',
+              bound='17 estimators x every constructor parameter x 1 sentinel; 17 x <= 11 query methods x 2 unfitted variants; '
+                    '17 x 2 fitted variants (n=24, d=3) x <= 10 outputs; 17 x 2 parameter configurations for clone; F6/F7/F11 configurations excluded',
+              standin_samples=samples, violations=vio)
 
 
 def owner_name(cls):
@@ -89,3 +132,298 @@ def owner_module(cls, ml):
     if '__init__' in vars(c):
       return c.__module__.split('.')[-1]
   return '?'
+
+
+# ------------------------------------------------------------------------------------------------------------------
+# NotFittedError on unfitted use, pickle round trips, clone equivalence (run-time oracles on the real estimators)
+
+QUERY_METHODS = ('transform', 'pair_distance', 'pair_score', 'score_pairs', 'get_metric', 'get_mahalanobis_matrix',
+                 'predict', 'decision_function', 'score', 'set_threshold', 'calibrate_threshold')
+
+FAST = {   # small, fast, valid settings with an integer random_state wherever there is one
+  'Covariance': {}, 'LFDA': {}, 'RCA': {},
+  'LMNN': dict(n_neighbors=2, max_iter=8, random_state=3),
+  'NCA': dict(max_iter=8, random_state=3),
+  'MLKR': dict(max_iter=8, random_state=3),
+  'RCA_Supervised': dict(n_chunks=5, chunk_size=2, random_state=3),
+  'ITML': dict(max_iter=15, random_state=3),
+  'ITML_Supervised': dict(max_iter=15, n_constraints=12, random_state=3),
+  'MMC': dict(max_iter=5, max_proj=500, random_state=3),
+  'MMC_Supervised': dict(max_iter=5, max_proj=500, n_constraints=12, random_state=3),
+  'SDML': dict(balance_param=1e-5, random_state=3),
+  'SDML_Supervised': dict(balance_param=1e-5, n_constraints=12, random_state=3),
+  'LSML': dict(max_iter=8, random_state=3),
+  'LSML_Supervised': dict(max_iter=8, n_constraints=12, random_state=3),
+  'SCML': dict(n_basis=20, max_iter=200, output_iter=100, random_state=3),
+  'SCML_Supervised': dict(n_basis=12, max_iter=200, output_iter=100, k_genuine=2, k_impostor=3, random_state=3),
+}
+
+
+class IndexInto:
+  """a picklable callable preprocessor"""
+  def __init__(self, X):
+    self.X = X
+
+  def __call__(self, indices):
+    return self.X[np.asarray(indices)]
+
+
+class _Data:
+  pass
+
+
+def small_data(seed, n=24, d=3):
+  rng = np.random.RandomState([int(seed) % (2 ** 31), 18])
+  D = _Data()
+  D.n, D.d = n, d
+  centers = rng.randn(3, d) * 4
+  D.y = np.arange(n) % 3                                  # fully labelled
+  D.X = centers[D.y] + rng.randn(n, d)
+  D.yr = D.X.dot(rng.randn(d)) + 0.1 * rng.randn(n)
+  D.chunks = np.where(np.arange(n) < 2 * n // 3, D.y, -1)
+  P, T, Q = [], [], []
+  while len(P) < 20:
+    i, j = (int(v) for v in rng.randint(n, size=2))
+    if i != j and (i, j) not in P and (D.y[i] == D.y[j]) == (len(P) % 2 == 0):
+      P.append((i, j))
+  while len(T) < 20:
+    a, b, c = (int(v) for v in rng.randint(n, size=3))
+    if a != b and D.y[a] == D.y[b] and D.y[a] != D.y[c] and (a, b, c) not in T:
+      T.append((a, b, c))
+  while len(Q) < 20:
+    a, b, c, e = (int(v) for v in rng.randint(n, size=4))
+    if a != b and D.y[a] == D.y[b] and D.y[c] != D.y[e] and (a, b, c, e) not in Q:
+      Q.append((a, b, c, e))
+  D.P, D.T, D.Q = np.array(P), np.array(T), np.array(Q)
+  D.yp = np.array([1, -1] * 10)
+  A = rng.randn(d, d)
+  D.spd = A.dot(A.T) + d * np.eye(d)
+  D.L = rng.randn(d, d)
+  D.w = rng.rand(12) + 0.5
+  D.Xq = centers[np.arange(5) % 3] + rng.randn(5, d)
+  D.iq = np.array([0, 3, 7, 11, 2])
+  return D
+
+
+def _tuples(name, D):
+  return {'pairs': D.P, 'triplets': D.T, 'quadruplets': D.Q}.get(KIND[name][0])
+
+
+def fit_args(name, D, indexed):
+  kind = KIND[name][0]
+  if kind == 'points':
+    X = np.arange(D.n) if indexed else D.X.copy()
+    if name == 'Covariance':
+      return (X,)
+    return (X, {'MLKR': D.yr, 'RCA': D.chunks}.get(name, D.y).copy())
+  t = _tuples(name, D)
+  t = t.copy() if indexed else D.X[t]
+  return (t, D.yp.copy()) if kind == 'pairs' else (t,)
+
+
+def query_args(name, mname, D, indexed):
+  """otherwise valid arguments of a query method (fresh arrays)"""
+  kind = KIND[name][0]
+  form = (lambda idx: idx.copy()) if indexed else (lambda idx: D.X[idx])
+  if mname == 'transform':
+    return (D.iq.copy() if indexed else D.Xq.copy(),)
+  if mname in ('pair_distance', 'pair_score', 'score_pairs'):
+    return (form(D.P[:6]),)
+  if mname in ('get_metric', 'get_mahalanobis_matrix'):
+    return ()
+  if mname in ('predict', 'decision_function'):
+    return (form(_tuples(name, D)[:6]),)
+  if mname == 'score':
+    return (form(D.P[:6]), D.yp[:6].copy()) if kind == 'pairs' else (form(_tuples(name, D)[:6]),)
+  if mname == 'set_threshold':
+    return (0.5,)
+  if mname == 'calibrate_threshold':
+    return (form(D.P[:10]), D.yp[:10].copy())
+  raise ValueError(mname)
+
+
+def bits(v):
+  """bit-exact, comparable rendering of an output"""
+  if isinstance(v, np.ndarray):
+    return ('nd', v.dtype.str, v.shape, v.tobytes())
+  if isinstance(v, np.generic):
+    return ('np', v.dtype.str, v.tobytes())
+  if isinstance(v, float):
+    return ('float', np.float64(v).tobytes())
+  return ('py', type(v).__name__, repr(v))
+
+
+def outputs(ml, est, name, D, indexed):
+  """{label: bits} of every query method the estimator has, on the query batch"""
+  out = {}
+  for m in QUERY_METHODS:
+    if not hasattr(est, m) or m in ('set_threshold', 'calibrate_threshold'):
+      continue
+    if m == 'get_metric':
+      f = est.get_metric()
+      out['get_metric()(u, v)'] = bits(f(D.X[0], D.X[1]))
+      out['get_metric()(u, v, squared=True)'] = bits(f(D.X[0], D.X[1], squared=True))
+    else:
+      out[m] = bits(getattr(est, m)(*query_args(name, m, D, indexed)))
+  for a in ('threshold_', 'n_features_in_'):
+    if hasattr(est, a):
+      out[a] = bits(getattr(est, a))
+  return out
+
+
+def param_equal(a, b):
+  if isinstance(a, np.ndarray) or isinstance(b, np.ndarray):
+    return (isinstance(a, np.ndarray) and isinstance(b, np.ndarray) and a.dtype == b.dtype and a.shape == b.shape
+            and bool(np.array_equal(a, b)))
+  if isinstance(a, IndexInto) and isinstance(b, IndexInto):
+    return param_equal(a.X, b.X)
+  if a is b:
+    return True
+  try:
+    return type(a) is type(b) and bool(a == b)
+  except Exception:
+    return False
+
+
+def params_differ(e1, e2):
+  p1, p2 = e1.get_params(deep=False), e2.get_params(deep=False)
+  return sorted(k for k in set(p1) | set(p2) if k not in p1 or k not in p2 or not param_equal(p1[k], p2[k]))
+
+
+def array_configs(name, D):
+  """[(label, constructor parameters)] with array / callable parameter values (fresh arrays each call)"""
+  fam = name.split('_')[0]
+  a = dict(FAST[name], preprocessor=D.X.copy())
+  b = dict(FAST[name], preprocessor=IndexInto(D.X.copy()))
+  if name in ('LMNN', 'NCA', 'MLKR'):
+    a['init'] = D.L.copy()
+    b.update(init=D.L[:2].copy(), n_components=2)
+  elif fam in ('ITML', 'SDML', 'LSML'):
+    a['prior'] = D.spd.copy()
+    b['prior'] = 'random'
+  elif fam == 'MMC':
+    a['init'] = D.spd.copy()
+    b.update(init='random', diagonal=True)
+  if name == 'LSML_Supervised':
+    a['weights'] = D.w.copy()
+  return [('array parameters', a), ('callable preprocessor', b)]
+
+
+@contextlib.contextmanager
+def _quiet():
+  with contextlib.ExitStack() as stack:
+    stack.enter_context(warnings.catch_warnings())
+    warnings.simplefilter('ignore')
+    stack.enter_context(np.errstate(all='ignore'))
+    try:
+      from threadpoolctl import threadpool_limits
+      stack.enter_context(threadpool_limits(limits=1))     # bit-reproducible reductions (KMeans in SCML_Supervised)
+    except ImportError:                                    # pragma: no cover
+      pass
+    yield
+
+
+def _raised(e):
+  return '%s: %s' % (type(e).__name__, str(e).replace('\n', ' ')[:160])
+
+
+def cases(tier, seed):
+  """generator of (description, tags, thunk) for the run-time groups (the constructor round trips are in run())"""
+  from sklearn.base import clone
+  from sklearn.exceptions import NotFittedError
+  ml = repo()
+  D = small_data(seed)
+
+  # (i) unfitted use
+  for name in PUBLIC:
+    for indexed in (False, True):
+      for m in QUERY_METHODS:
+        if not hasattr(getattr(ml, name), m):
+          continue
+        call = '%s(%s).%s(<valid %s arguments>)' % (name, 'preprocessor=X' if indexed else '', m, 'index' if indexed else 'formed')
+
+        def thunk(name=name, indexed=indexed, m=m, call=call):
+          with _quiet():
+            est = getattr(ml, name)(**({'preprocessor': D.X.copy()} if indexed else {}))
+            try:
+              r = getattr(est, m)(*query_args(name, m, D, indexed))
+              got = 'returned %s' % type(r).__name__
+            except NotFittedError:
+              return None
+            except Exception as e:
+              got = 'raised ' + _raised(e)
+          return dict(tag='unfitted-use-raises-NotFittedError', input=call, observed=got + ' (expected NotFittedError)',
+                      signature='unfitted %s.%s' % (name, m))
+        yield 'unfitted ' + call, ('unfitted', name, m), thunk
+
+  # (ii) pickle round trip of a fitted estimator
+  for name in PUBLIC:
+    for indexed in (False, True):
+      kw = dict(FAST[name], **({'preprocessor': D.X.copy()} if indexed else {}))
+      desc = 'pickle %s(%s).fit(<%s data n=%d d=%d>)' % (name, ', '.join('%s=%s' % (k, 'X' if k == 'preprocessor' else repr(v)) for k, v in kw.items()),
+                                                       'index' if indexed else 'formed', D.n, D.d)
+
+      def thunk(name=name, indexed=indexed, kw=kw, desc=desc):
+        with _quiet():
+          try:
+            est = getattr(ml, name)(**kw).fit(*fit_args(name, D, indexed))
+          except Exception as e:
+            return dict(tag='pickle-roundtrip', input=desc, observed='fit raised ' + _raised(e), signature='%s fit raises' % name)
+          try:
+            est2 = pickle.loads(pickle.dumps(est))
+            o1, o2 = outputs(ml, est, name, D, indexed), outputs(ml, est2, name, D, indexed)
+          except Exception as e:
+            return dict(tag='pickle-roundtrip', input=desc, observed='raised ' + _raised(e), signature='%s pickle raises' % name)
+          bad = [k for k in o1 if o1[k] != o2.get(k)] + ['get_params()[%r]' % k for k in params_differ(est, est2)]
+        if bad:
+          return dict(tag='pickle-roundtrip', input=desc, observed='differs after pickle.loads(pickle.dumps(est)): %s' % ', '.join(bad),
+                      signature='%s pickle changes %s' % (name, bad[0]))
+        return None
+      yield desc, ('pickle', name), thunk
+
+  # (iii) clone of an unfitted estimator with array / callable parameters; clone/pickle sequences
+  for name in PUBLIC:
+    for label, kw in array_configs(name, D):
+      indexed = True
+      desc = 'clone %s(<%s: %s>)' % (name, label, ', '.join(sorted(k for k, v in kw.items() if isinstance(v, (np.ndarray, IndexInto)))))
+
+      def thunk(name=name, kw=kw, desc=desc, indexed=indexed):
+        with _quiet():
+          est = getattr(ml, name)(**kw)
+          try:
+            c = clone(est)
+          except Exception as e:
+            return dict(tag='clone-equivalent', input=desc, observed='clone raised ' + _raised(e), signature='%s clone raises' % name)
+          bad = params_differ(est, c)
+          if bad:
+            return dict(tag='clone-equivalent', input=desc, observed='get_params() of the clone differs in %s' % bad,
+                        signature='%s clone changes parameter %s' % (name, bad[0]))
+          try:
+            est.fit(*fit_args(name, D, indexed))
+            c.fit(*fit_args(name, D, indexed))
+            o1, o2 = outputs(ml, est, name, D, indexed), outputs(ml, c, name, D, indexed)
+          except Exception as e:
+            return dict(tag='clone-equivalent', input=desc, observed='fit/query raised ' + _raised(e), signature='%s fit of clone raises' % name)
+          bad = [k for k in o1 if o1[k] != o2.get(k)]
+          if bad or not np.array_equal(est.components_, c.components_):
+            return dict(tag='clone-equivalent', input=desc, observed='estimator and its clone, fitted on the same data, differ in: %s'
+                        % ', '.join(bad or ['components_']), signature='%s clone fits to another model' % name)
+        return None
+      yield desc, ('clone', name), thunk
+
+    def seq(name=name):
+      with _quiet():
+        est = getattr(ml, name)(**FAST[name])
+        for what, make in (('clone(pickle.loads(pickle.dumps(est)))', lambda: clone(pickle.loads(pickle.dumps(est)))),
+                           ('pickle.loads(pickle.dumps(clone(est)))', lambda: pickle.loads(pickle.dumps(clone(est)))),
+                           ('clone(clone(est).set_params(**est.get_params()))', lambda: clone(clone(est).set_params(**est.get_params(deep=False))))):
+          inp = 'est = %s(%s); %s' % (name, ', '.join('%s=%r' % kv for kv in FAST[name].items()), what)
+          try:
+            c = make()
+          except Exception as e:
+            return dict(tag='clone-after-pickle', input=inp, observed='raised ' + _raised(e), signature='%s %s raises' % (name, what.split('(')[0] + '-after-' + ('pickle' if what.startswith('clone(pickle') else 'clone')))
+          bad = params_differ(est, c)
+          if bad:
+            return dict(tag='clone-after-pickle', input=inp, observed='parameters differ: %s' % bad, signature='%s clone/pickle sequence changes %s' % (name, bad[0]))
+      return None
+    yield 'clone/pickle sequences of %s(%s)' % (name, ', '.join('%s=%r' % kv for kv in FAST[name].items())), ('clone', 'pickle', name), seq
